@@ -274,4 +274,16 @@ example :
     let r := slotRun (α := Nat) .list [.append 1, .append 1, .setItem 0 3, .delItem 1, .extend [3, 4]] []
     r.1 = [3, 3, 4] ∧ replay false [] r.2 = [3, 3, 4] := by decide
 
+
+/-- **Slices** (`l[a:b] = ys`, `del l[a:b]` on a list-like feature): what leaves is reported as REMOVE / REMOVE_MANY (nothing
+when nothing leaves), what comes in as ADD / ADD_MANY (nothing when nothing comes in), and replaying that on the mirror
+gives the slot's new contents. -/
+theorem C05_slice {α : Type} [DecidableEq α] (l m : List α) (a b : Nat) (ys : List α) (h : Same .list l m) :
+    Same .list (sliceStep l a b ys).items (replay false m (sliceStep l a b ys).notifs) :=
+  slice_mirror l m a b ys h
+
+example : (sliceStep [1, 2, 3, 4] 1 3 ([] : List Nat)).items = [1, 4] ∧
+    (sliceStep [1, 2, 3, 4] 1 3 ([] : List Nat)).notifs.map (·.kind) = [.removeMany] ∧
+    (sliceStep [1, 2, 3, 4] 2 2 [9]).notifs.map (·.kind) = [.add] ∧ (sliceStep [1, 2] 5 9 ([] : List Nat)).notifs = [] := by decide
+
 end Py
